@@ -42,8 +42,9 @@ PROPS = {
         "rule": WORLD_RULE + "; 60% of delegations carry restricting caveats, derivation rules default/eq/le", "trusted_base": VALIDATOR_TRUSTED,
     },
     "C03": {
+        "manifest": {"text": "Theorems isExpired_spec / isTooEarly_spec (exactly exp <= now, resp. nbf set and now <= nbf), C03_noexp, C03_inside (strictly inside the window is never rejected for time reasons, by either predicate), C03_no_spurious (validate never answers expired/too-early for an in-window token), C03_window (every delegation of a returned authorization, at any depth, is inside its window at the validation second) and C03_attestation_window (so is every delegation of an accepted session attestation). Correspondence without a clock hook: each case fixes one position (invocation, proof at any depth, attestation) to one of the 6x6 boundary combinations relative to the wall-clock second T read just before validation; the sample is kept only if the clock still reads T afterwards; the model is evaluated with now = T.", "design_ref": "5.3", "note": VALIDATOR_NOTE + "; wall clock: a sample is discarded when the second ticks during validation"},
         "obligations": ob("UcantoModel.Props.C03", "V.isExpired_spec", "V.isTooEarly_spec", "V.C03_noexp", "V.C03_inside", "V.C03_no_spurious", "V.C03_window", "V.C03_attestation_window"),
-        "rule": "", "trusted_base": VALIDATOR_TRUSTED,
+        "rule": "valid worlds (depth 0-4, half with a session); one position x expiration in {none, far past, T-1, T, T+1, far} x not-before in {unset, far past, T-1, T, T+1, far}, T = wall-clock second of validation (bracketed). every case is non-trivial; distinct: hash of the concrete world", "trusted_base": VALIDATOR_TRUSTED,
     },
     "C04": {
         "manifest": {"text": "Theorems C04_accept / C04_attestation_shape / C04_other_link: a token whose issuer is neither did:key nor the authority validates only through a sibling attestation (not itself, first capability ucan/attest, `with` the authority DID, proof = exactly this token's link, in window, own chain valid, not revoked) or, when the session claim failed without failed proof chains, through the resolved key's signature. Correspondence (both directions) on worlds that all contain a non-key issuer with ten attestation variants and key-resolver variants.", "design_ref": '5.4', "note": VALIDATOR_NOTE},
